@@ -9,7 +9,12 @@ import re
 
 from vlib import Ob, run_all, REPO
 
-BUILD = ["MIR_NO_INTERP", "MIR_NO_IO", "MIR_NO_SCAN", "H_HTAB_MODEL_CAP=6"]
+# Findings 1-5 (addr operand, jcall modes, laddr output, proto/block callee) were repaired in /repo by the fix: commits d9fc5f08,
+# 15c0ce9b, 789ebb63, ea7651df.  With FIXED_IN_REPO the oracle's verdict on those forms is enforced by the per-opcode obligations
+# (no exclusion) and the former finding.* obligations are regression obligations regress.* that must hold.  Set it to False to check
+# a tree without these commits (the forms are then excluded again and expected to be violated as finding.*).
+FIXED_IN_REPO = True
+BUILD = ["MIR_NO_INTERP", "MIR_NO_IO", "MIR_NO_SCAN", "H_HTAB_MODEL_CAP=6"] + (["H_FIXED_IN_REPO"] if FIXED_IN_REPO else [])
 MAXN = 6
 
 
@@ -73,7 +78,7 @@ def obligations(tier):
                 nmin, nmax = (0, MAXN) if full else (lo, min(hi, lo + 1))
                 # jcall with 6 operands is part of a known finding (out-of-bounds read of op_modes[5]): no accept path left for proto0
                 obs.append(insn_ob(tier, "insn.%s.proto%d" % (code.lower(), pv), code, nmin, nmax, ["H_PROTO=%d" % pv],
-                                   accept=not (code == "JCALL" and pv == 0), what="; prototype p: " + ptxt, timeout=3600 if full else 1800))
+                                   accept=FIXED_IN_REPO or not (code == "JCALL" and pv == 0), what="; prototype p: " + ptxt, timeout=3600 if full else 1800))
         elif code == "RET":
             for fv, (ftxt, nres) in FRES.items():
                 nmin, nmax = (0, 4) if full else (max(0, nres - 1), nres + 1)
@@ -88,11 +93,14 @@ def obligations(tier):
             nmin, nmax = (0, 5) if full else (2, 3)
             obs.append(insn_ob(tier, "insn.switch", code, nmin, nmax))
         elif code in BO:
-            # group 2 (register moves between the overflow insn and the branch) is not run: CBMC out of memory, see META
-            for grp, gtxt in enumerate(("nothing", "a placeholder insn (opcode only) with any of the 8 overflow opcodes, add or invalid-insn")):
+            groups = [(0, "nothing", 2, 1, False), (1, "a placeholder insn (opcode only) with any of the 8 overflow opcodes, add or invalid-insn", 3, 1, True),
+                      (2, "two real insns: one of {subos; mov reg,reg}, {addo; mov reg,imm}, {mulos; mov reg,reg}, {umulo; mov reg,reg}", 4, 3, True)]
+            for grp, gtxt, nin, mo, acc in groups:
+                if grp == 2 and not (full or code == "BO"):
+                    continue   # quick tier: the register-move separation once (bo); thorough: all four branches
                 nmin, nmax = (0, MAXN) if full and grp == 0 else (ar, ar)
                 obs.append(insn_ob(tier, "insn.%s.prev%d" % (code.lower(), grp), code, nmin, nmax, ["H_PREV_GROUP=%d" % grp],
-                                   ninsns=2 + grp, prevwalk=2 + grp, maxops=1, accept=grp != 0, what="; preceded by " + gtxt, timeout=2400))
+                                   ninsns=nin, prevwalk=nin, maxops=mo, accept=acc, what="; preceded by " + gtxt, timeout=2400))
         elif code in INTERNAL:
             nmin, nmax = (0, 4) if full else (0, 3)
             obs.append(insn_ob(tier, "insn." + code.lower(), code, nmin, nmax, accept=False, what="; internal insn: never accepted"))
@@ -101,15 +109,24 @@ def obligations(tier):
             defs = ["H_VARARG_ND"] if code == "VA_START" else []
             obs.append(insn_ob(tier, "insn." + code.lower(), code, nmin, nmax, defs, maxops=ar,
                                what="; function vararg flag symbolic" if defs else ""))
-    # known findings: the instruction forms excluded from the obligations above, nothing else (expected: violated -> KNOWN-FINDING)
-    KF = {"laddr-nonvar-output": ("LADDR", 1, 2, []), "va_start-undef-mem": ("VA_START", 2, 1, ["H_VARARG_ND"]),
-          "va_end-undef-mem": ("VA_END", 2, 1, []), "va_arg-undef-mem": ("VA_ARG", 2, 3, []), "va_block_arg-undef-mem": ("VA_BLOCK_ARG", 2, 4, []),
-          "call-callee-proto-ref": ("CALL", 3, 4, ["H_PROTO=2"]), "call-callee-blk-mem": ("CALL", 4, 4, ["H_PROTO=2"]),
-          "addr-nonreg-operand": ("ADDR", 5, 2, []), "addr8-nonreg-operand": ("ADDR8", 5, 2, []),
-          "addr16-nonreg-operand": ("ADDR16", 5, 2, []), "addr32-nonreg-operand": ("ADDR32", 5, 2, []),
-          "jcall-operands-unchecked": ("JCALL", 6, 4, ["H_PROTO=2"]), "jcall-op-modes-out-of-bounds-read": ("JCALL", 6, 6, ["H_PROTO=0"])}
-    for kname, (code, kid, n, defs) in KF.items():
-        obs.append(insn_ob(tier, "finding." + kname, code, n, n, defs + ["H_KF_ONLY=%d" % kid], what="; ONLY the known-finding form"))
+    # instruction forms that are / were findings.  Still-known ones (STILL) are excluded from the obligations above and are the sole
+    # content of finding.* (expected: violated -> KNOWN-FINDING); repaired ones are the sole content of regress.* (must hold).
+    KF = {"laddr-nonvar-output": ("LADDR", 1, 2, [], False), "va_start-undef-mem": ("VA_START", 2, 1, ["H_VARARG_ND"], False),
+          "va_end-undef-mem": ("VA_END", 2, 1, [], False), "va_arg-undef-mem": ("VA_ARG", 2, 3, [], False),
+          "va_block_arg-undef-mem": ("VA_BLOCK_ARG", 2, 4, [], False),
+          "call-callee-proto-ref": ("CALL", 3, 4, ["H_PROTO=2"], False), "call-callee-blk-mem": ("CALL", 4, 4, ["H_PROTO=2"], False),
+          "addr-nonreg-operand": ("ADDR", 5, 2, [], False), "addr8-nonreg-operand": ("ADDR8", 5, 2, [], False),
+          "addr16-nonreg-operand": ("ADDR16", 5, 2, [], False), "addr32-nonreg-operand": ("ADDR32", 5, 2, [], False),
+          # jcall forms: instructions whose only defects are operand value types / outputs (all ill-formed); every 6-operand jcall that
+          # passes the prototype count check (the former out-of-bounds read of op_modes[5]; contains well-formed instructions too)
+          "jcall-operands-unchecked": ("JCALL", 6, 4, ["H_PROTO=2"], False), "jcall-op-modes-out-of-bounds-read": ("JCALL", 6, 6, ["H_PROTO=0"], True)}
+    for kname, (code, kid, n, defs, has_accept) in KF.items():
+        still = kid == 2 or not FIXED_IN_REPO
+        if still:
+            obs.append(insn_ob(tier, "finding." + kname, code, n, n, defs + ["H_KF_ONLY=%d" % kid], what="; ONLY the known-finding form"))
+        else:
+            obs.append(insn_ob(tier, "regress." + kname, code, n, n, defs + ["H_KF_ONLY=%d" % kid], accept=has_accept,
+                               what="; ONLY the form of a repaired finding (must be rejected%s)" % (" unless well-formed" if has_accept else "")))
     # register declaration errors (create_func_reg / find_rd_by_reg / find_rd_by_name on the same constructed state)
     dloops = {"HTAB_hard_reg_desc_t_do#0": 2, "HTAB_size_t_do#0": 17, "HTAB_string_t_do#0": 17, "_MIR_reserved_name_p#0": 6, "memcmp#0": 8,
               "strncmp#0": 6, "strlen#0": 16, "memcpy#0": 4, "memcpy#1": 8, "strcmp#0": 8, "bitmap_expand#0": 2}
@@ -170,4 +187,9 @@ META = {
 
 
 def check(tier, only=None):
-    return run_all("C15", tier, obligations(tier), "model_checking", dict(META), only=only)
+    import resource
+    r0 = resource.getrusage(resource.RUSAGE_CHILDREN)
+    rc = run_all("C15", tier, obligations(tier), "model_checking", dict(META), only=only)
+    r1 = resource.getrusage(resource.RUSAGE_CHILDREN)
+    print("CPU property=C15 tier=%s child user+sys = %.0f s (goto-cc, cbmc, replay builds)" % (tier, r1.ru_utime + r1.ru_stime - r0.ru_utime - r0.ru_stime))
+    return rc
